@@ -1,8 +1,11 @@
 /- C04 driver: condition S-expressions + environment -> spec verdict per rule.
    Line:  <id> [cext=<t>:<name>:<val>]* buf=<hex> [blocks=n1,n2,..] rule=<sexpr>*   (other tokens ignored)
    rule sexpr: (rule;<name>;(strs;(s;off:len;..);..);<cond>)          separator `;`, no spaces
-   Output: <id> rules=default:<name>=<0|1>,...  -/
+   Output: <id> rules=default:<name>=<0|1>,... model=default:<name>=<0|1|?>,...
+   `rules` = the specification (Spec.Cond.eval); `model` = the compiled code run on the VM model
+   (Model.CondCompile / Model.CondVm), i.e. what libyara is modelled to compute, known defects included. -/
 import YaraModel.Spec.Cond
+import YaraModel.Model.CondCompile
 import Driver.Util
 namespace Driver.Cond
 open YaraModel YaraModel.Cond
@@ -220,6 +223,12 @@ def handle (line : String) : String :=
       | none => [(0, c.buf)]
     let vs := evalRules blocks c.buf.length c.ext (c.rules.map (·.2)) []
     let shown := (c.rules.zip vs).map fun (r, v) => s!"default:{r.1}={Driver.bit v}"
-    s!"{id} rules={",".intercalate shown}"
+    let ms := YaraModel.CondCompile.modelRules blocks c.buf.length c.ext (c.rules.map (·.2)) []
+    let mshown := (c.rules.zip ms).map fun (r, v) =>
+      let t := match v with
+        | some b => String.singleton (Driver.bit b)
+        | none => "?"
+      s!"default:{r.1}={t}"
+    s!"{id} rules={",".intercalate shown} model={",".intercalate mshown}"
 
 end Driver.Cond
